@@ -29,6 +29,7 @@ import (
 type C04Config struct {
 	Auth      string `json:"auth"`       // "" | "user:pass" | "user:p:w:x"
 	Deny      bool   `json:"deny"`       // deny-domains list configured
+	DenySet   int    `json:"deny_set,omitempty"` // which of c04DenySets
 	Localhost string `json:"localhost"`  // deny | allow
 	TimeFrame string `json:"time_frame"` // "" | in | out | gap | edge-in | split-in (the last three are built around the current hour)
 	MITM      bool   `json:"mitm"`
@@ -53,8 +54,15 @@ const (
 )
 
 var (
-	c04Names      = []string{"allowed.test", "Allowed.TEST", "denied.test", "DENIED.test", "sub.denied.test", "ok.denied.test", "notdenied.test.example"}
-	c04DenyRules  = []string{`(?i)denied\.test$`, `-(?i)^ok\.`}
+	c04Names = []string{"allowed.test", "Allowed.TEST", "denied.test", "DENIED.test", "sub.denied.test", "ok.denied.test", "notdenied.test.example",
+		"not-ok.denied.test", "ok.denied.test.x.denied.test", "wiki.corp.denied.test", "private-wiki.corp.denied.test", "wiki.corp.denied.test.evil.corp.denied.test", "Open.corp.denied.test", "xdenied.test"}
+	// deny-domains lists: flags and half-anchored rules; an unanchored include with a fully anchored literal exclude; several
+	// includes and excludes, anchored literals among them
+	c04DenySets = [][]string{
+		{`(?i)denied\.test$`, `-(?i)^ok\.`},
+		{`.*\.denied\.test`, `-^ok\.denied\.test$`},
+		{`^denied\.test$`, `corp\.denied\.test`, `-^wiki\.corp\.denied\.test$`, `-^(?i)open\.`},
+	}
 	c04LocalHosts = []string{"localhost", "LOCALHOST", "LocalHost", "127.0.0.1", "127.0.0.7", "127.255.255.254", "0.0.0.0",
 		"[::1]", "[0:0:0:0:0:0:0:1]", "[::]", "[::0]", "[0:0:0:0:0:0:0:0]", "[::ffff:127.0.0.1]", "[::ffff:0.0.0.0]", "[::FFFF:7F00:1]", "[0000::0001]", "localhost.", "LocalHost.", "[::1%25lo]"}
 	c04Creds = []string{"none", "exact", "exact", "exact", "wrong-user", "wrong-pass", "pass-prefix", "pass-suffix", "pass-case", "user-case", "scheme-lower", "bearer", "digest",
@@ -65,6 +73,9 @@ func genC04(t *rapid.T) C04Case {
 	var c C04Case
 	c.Cfg.Auth = rapid.SampledFrom([]string{"", "user:pass", "user:pass", "user:p:w:x"}).Draw(t, "auth")
 	c.Cfg.Deny = rapid.Bool().Draw(t, "deny")
+	if c.Cfg.Deny {
+		c.Cfg.DenySet = rapid.IntRange(0, len(c04DenySets)-1).Draw(t, "denyset")
+	}
 	c.Cfg.Localhost = rapid.SampledFrom([]string{"deny", "deny", "allow"}).Draw(t, "localhost")
 	c.Cfg.TimeFrame = rapid.SampledFrom([]string{"", "", "in", "out", "gap", "edge-in", "split-in"}).Draw(t, "timeframe")
 	c.Cfg.MITM = rapid.IntRange(0, 3).Draw(t, "mitm") == 0
@@ -264,7 +275,7 @@ func (e *c04Env) proxy(cfg C04Config) (*ProxyInst, error) {
 		o.BasicAuth = url.UserPassword(u, p)
 	}
 	if cfg.Deny {
-		o.DenyDomains = c04DenyRules
+		o.DenyDomains = c04DenySets[cfg.DenySet%len(c04DenySets)]
 	}
 	now := time.Now()
 	switch cfg.TimeFrame {
@@ -315,10 +326,16 @@ func refIsLocalhost(e *c04Env, host string) bool {
 	return false
 }
 
-func refDenied(host string) bool {
+func refDenied(host string, set int) bool {
 	h := strings.Trim(host, "[]")
-	inc := regexp.MustCompile(c04DenyRules[0]).MatchString(h)
-	exc := regexp.MustCompile(strings.TrimPrefix(c04DenyRules[1], "-")).MatchString(h)
+	inc, exc := false, false
+	for _, r := range c04DenySets[set%len(c04DenySets)] {
+		if x, ok := strings.CutPrefix(r, "-"); ok {
+			exc = exc || regexp.MustCompile(x).MatchString(h)
+		} else {
+			inc = inc || regexp.MustCompile(r).MatchString(h)
+		}
+	}
 	return inc && !exc
 }
 
@@ -424,7 +441,7 @@ func refDecide(e *c04Env, cfg C04Config, r C04Req) c04Expect {
 		x.codes[403] = true
 		x.reasons = append(x.reasons, "localhost denied")
 	}
-	if cfg.Deny && refDenied(r.Host) {
+	if cfg.Deny && refDenied(r.Host, cfg.DenySet) {
 		x.codes[403] = true
 		x.reasons = append(x.reasons, "deny-domains")
 	}
@@ -631,7 +648,7 @@ func classifyC04(c C04Case) (bool, string, []string) {
 		cls = append(cls, "cfg-auth")
 	}
 	if c.Cfg.Deny {
-		cls = append(cls, "cfg-deny")
+		cls = append(cls, fmt.Sprintf("cfg-deny-list-%d", c.Cfg.DenySet))
 	}
 	cls = append(cls, "cfg-localhost-"+c.Cfg.Localhost)
 	if c.Cfg.TimeFrame != "" {
